@@ -2,7 +2,7 @@
    combinations model and the independent-set model; truth-table / product
    decisions evaluated on the energies the implementation reported. *)
 From Coq Require Import List ZArith QArith Qcanon Bool Arith.
-From Dimod Require Import Base.Util Model.Poly Model.Comb Gen.Gen_Gates Model.Gates.
+From Dimod Require Import Base.Util Model.Poly Model.Comb Gen.Gen_Gates Model.Gates Model.Knap Model.MultCircuit.
 Import ListNotations.
 Open Scope Qc_scope.
 
@@ -23,10 +23,20 @@ Definition gate_ok (g : gate) := match g with
 Inductive case :=
 | CGate (g : gate) (s : Qc) (bqm : obs) (rows : list (list bool * Qc))
 | CMult (na nb np : nat) (rows : list (list bool * Qc))
+(* the BQM of multiplication_circuit(na, nb); variable number k is the wire names[k] *)
+| CMultWire (na nb : nat) (names : list wire) (bqm : obs)
 | CComb (n : nat) (k : Z) (s : Qc) (rows : list (list bool * Qc))
 | CMwis (s : option Qc) (mult : Qc) (edges : list (label * label)) (nodes : list (label * Qc))
         (n : nat) (bqm : obs)
-| CIs (edges : list (label * label)) (n : nat) (bqm : obs).
+| CIs (edges : list (label * label)) (n : nat) (bqm : obs)
+(* CQM generators: the generator's data, the objective and constraints the CQM reports (lhs, sense, rhs),
+   and per assignment (bits by variable number): check_feasible, objective energy *)
+| CKnap (values weights : list Qc) (capacity : Qc) (obj : obs) (cons : list (obs * sense * Qc))
+        (rows : list (list bool * bool * Qc))
+| CMk (values weights capacities : list Qc) (obj : obs) (cons : list (obs * sense * Qc))
+      (rows : list (list bool * bool * Qc))
+| CBp (weights : list Qc) (capacity : Qc) (obj : obs) (cons : list (obs * sense * Qc))
+      (rows : list (list bool * bool * Qc)).
 
 Definition bits_eqb := list_eqb Bool.eqb.
 Definition rows_complete (n : nat) (rows : list (list bool * Qc)) : bool :=
@@ -36,6 +46,29 @@ Definition lookup_row (rows : list (list bool * Qc)) (x : list bool) : Qc :=
   match find (fun r => bits_eqb (fst r) x) rows with Some r => snd r | None => - (1) end.
 Definition qmin (a b : Qc) : Qc := if Qle_bool a b then a else b.
 Definition qle (a b : Qc) : bool := Qle_bool a b.
+
+Fixpoint forallb2 {A B} (f : A -> B -> bool) (l1 : list A) (l2 : list B) : bool :=
+  match l1, l2 with
+  | [], [] => true
+  | x :: xs, y :: ys => f x y && forallb2 f xs ys
+  | _, _ => false
+  end.
+
+(* the reported constraint  lhs (sense) rhs  is the model's  sum lin + const (sense) 0 *)
+Definition con_matches (nvars : nat) (mc : lincon) (oc : obs * sense * Qc) : bool :=
+  let '(o, sn, rhs) := oc in
+  sense_eqb sn (lc_sense mc)
+  && poly_coeff_eqb nvars (mkPoly (lc_const mc) (lc_lin mc) []) (mkPoly (o_off o - rhs) (o_lin o) (o_quad o)).
+
+Definition check_lcqm (m : lcqm) (nvars : nat) (obj : obs) (cons : list (obs * sense * Qc))
+    (rows : list (list bool * bool * Qc)) (okf : sample -> bool) (objf : sample -> Qc) : bool :=
+  poly_coeff_eqb nvars (q_obj m) (obs_poly obj)
+  && forallb2 (con_matches nvars) (q_cons m) cons
+  && forallb (fun r => let '(bits, feas, en) := r in
+                let x := sample_of_bits bits in
+                (length bits =? nvars)%nat
+                && Bool.eqb feas (feasibleb m x) && Bool.eqb feas (okf x)
+                && Qc_eqb en (energy (q_obj m) x) && Qc_eqb en (objf x)) rows.
 
 Definition check (c : case) : bool :=
   match c with
@@ -58,6 +91,10 @@ Definition check (c : case) : bool :=
                            let b := firstn nb (skipn na (fst r)) in
                            let p := skipn (na + nb) (fst r) in
                            if (bits_val p =? bits_val a * bits_val b)%Z then Qc_eqb (snd r) 0 else qle 1 (snd r)) rows
+  | CMultWire na nb names bqm =>
+      let gs := circuit na nb in
+      forallb (fun g => forallb (fun w => wmem w names) (inst_inputs g ++ inst_outputs g)) gs
+      && poly_coeff_eqb (length names) (circuit_poly (index_of names) gs) (obs_poly bqm)
   | CComb n k s rows =>
       rows_complete n rows
       && forallb (fun r => Qc_eqb (snd r) (s * z2q (combinations_energy k (fst r)))) rows
@@ -66,4 +103,18 @@ Definition check (c : case) : bool :=
       let s_eff := match s with Some s => s | None => max_weight ws * mult end in
       poly_coeff_eqb n (mwis_poly s_eff edges ws) (obs_poly bqm)
   | CIs edges n bqm => poly_coeff_eqb n (mwis_poly 1 edges []) (obs_poly bqm)
+  | CKnap values weights capacity obj cs rows =>
+      let n := length values in
+      (length weights =? n)%nat
+      && check_lcqm (knapsack_model values weights capacity) n obj cs rows
+           (ks_ok weights capacity n) (fun x => - ks_value values n x)
+  | CMk values weights capacities obj cs rows =>
+      let n := length values in let b := length capacities in
+      (length weights =? n)%nat
+      && check_lcqm (mk_model values weights capacities) (n * b) obj cs rows
+           (mk_ok weights capacities n b) (fun x => - mk_value values n b x)
+  | CBp weights capacity obj cs rows =>
+      let n := length weights in
+      check_lcqm (bp_model weights capacity) (n + n * n) obj cs rows
+           (bp_ok weights capacity n) (bp_open_bins n)
   end.
